@@ -279,8 +279,26 @@ def inject_bound_clash(rng, e):
     K1, K2 = rng.sample(('BOOL', 'NUMBER', 'STRING'), 2)
     v, w, z = 'qv', 'qw', 'qz'
     dom, dom2 = A.fld('qdom'), A.fld('qdom2')  # array fields whose element type nothing else fixes
-    shape = gen.pick(rng, ('same-level', 'outer-and-nested', 'nested-and-outer', 'sibling-nested', 'nested-domain'))
+    shape = gen.pick(rng, ('same-level', 'outer-and-nested', 'nested-and-outer', 'sibling-nested', 'nested-domain',
+                           'literal-domain', 'literal-domain'))
     q1, q2 = gen.pick(rng, ('forall', 'exists')), gen.pick(rng, ('forall', 'exists'))
+    if shape == 'literal-domain':
+        # the domain is a literal whose members fix the element kind Kd; the variable occurs first in a position that
+        # constrains nothing (compared with a field, member of a set of fields) and later at a kind disjoint from Kd
+        Kd = gen.pick(rng, ('NUMBER', 'NUMBER', 'STRING', 'BOOL'))
+        lits = {'NUMBER': (A.num('1'), A.num('2')), 'STRING': (A.string('a'), A.string('b')),
+                'BOOL': (A.boolean(True), A.boolean(False))}[Kd]
+        ldom = ('range', A.num('0'), A.num('3'), False, False) if (Kd == 'NUMBER' and rng.random() < 0.5) else ('set', lits)
+        Kc = gen.pick(rng, [k for k in ('BOOL', 'NUMBER', 'STRING') if k != Kd])
+        generic = gen.pick(rng, (('bin', '=', A.var(v), A.fld('qg')), ('bin', 'in', A.var(v), ('set', (A.fld('qg'), A.fld('qh')))),
+                                 ('bin', '!=', A.fld('qg'), A.var(v))))
+
+        def lblock(K):
+            return ('quant', q1, v, ldom, ('bin', 'and', generic, USES[K](A.var(v))))
+        first = rng.random() < 0.5
+        e2 = ('bin', 'and', lblock(Kc), e) if first else ('bin', 'and', e, lblock(Kc))
+        twin = ('bin', 'and', lblock(Kd), e) if first else ('bin', 'and', e, lblock(Kd))
+        return e2, {'mode': 'c', 'shape': shape, 'first_use': Kd, 'second_use': Kc, 'via': 'literal-domain'}, twin
 
     def block(Ka, Kb):
         ua, ub = USES[Ka](A.var(v)), USES[Kb](A.var(v))
